@@ -40,6 +40,12 @@ class InjectedNotImplemented(NotImplementedError):
     internally to signal 'no items() here')"""
 
 
+class InjectedStopIteration(StopIteration):
+    """a StopIteration raised by user code: inside a generator based pipeline it
+    can only arrive as RuntimeError('generator raised StopIteration') (PEP 479);
+    it must never end the stream silently"""
+
+
 class InjectedBase(BaseException):
     """not an Exception subclass"""
 
@@ -56,6 +62,7 @@ EXC_KINDS = {
     'index': InjectedIndexError,
     'timeout': InjectedTimeout,
     'notimpl': InjectedNotImplemented,
+    'stopiter': InjectedStopIteration,
     'base': InjectedBase,
 }
 EXC_NAME = {v: k for k, v in EXC_KINDS.items()}
@@ -435,6 +442,13 @@ def apply_stage(ds, st, parallel=True):
         if st.get('map'):
             other = other.map(MapFn(st['map']))
         return ds.concatenate(other)
+    if op == 'keyzip':
+        off = st.get('offset', 300)
+        keys = list(ds.keys())
+        other = lazy_dataset.new({k: {'src': off + int(k[1:])} for k in reversed(keys)})
+        if st.get('map'):
+            other = other.map(MapFn(st['map']))
+        return ds.key_zip(other)
     if op == 'intersperse':
         other = make_source({'kind': st.get('kind', 'list'), 'n': st['n']},
                             offset=st.get('offset', 100))
